@@ -134,6 +134,15 @@ structure Upsert where
   conflict : Option (List (Col × E) × E)
   deriving Repr, Inhabited
 
+/-- `SELECT … FROM documents WHERE cond [ORDER BY cols]` (also the WHERE clause of a `DELETE FROM documents`): which rows are read. -/
+structure Select where
+  cond : E
+  orderBy : List Col
+  deriving Repr, Inhabited
+
+/-- Does the statement read / delete this row? -/
+def Select.selects (q : Select) (ps : Env) (r : SRow) : Bool := (q.cond.eval ps r).truthy
+
 /-- Column defaults of `schema.sql` (`exp default 0`, `isJSON default true`, `tombstone default 0`, `revSeqNo default 0`). -/
 def defaultRow : SRow :=
   { collection := .null, key := .null, value := .null, cas := .null, exp := .int 0, isJSON := .int 1,
